@@ -76,7 +76,7 @@ func genC11(seed uint64, i int, tier string) *Scenario {
 	if b <= 3 && r.Chance(0.5) {
 		n += r.Range(2, 9)
 	}
-	sc.Init = genStore(r, n, pick(r, []string{StoreMixed, StoreInts, StoreText}))
+	sc.Init = genStore(r, n, pick(r, []string{StoreMixed, StoreInts, StoreText, StoreMixed, StoreInts, StoreText, StoreBytes}))
 	if r.Chance(0.004) {
 		sc.Cfg.Batch = pick(r, []int{64, 255, 256, 257, 1000})
 		sc.Init = genStore(r, pick(r, []int{255, 256, 257, 300, 800, 1100}), pick(r, []string{StoreInts, StoreMixed}))
